@@ -16,6 +16,7 @@ package main
 import (
 	"context"
 	"fmt"
+	"os"
 	"runtime"
 	"sort"
 	"strconv"
@@ -430,6 +431,10 @@ func (x *runner) do(op Op) bool {
 		} else {
 			w.queued = true
 			x.k.Events = append(x.k.Events, ev)
+			if armed && op.Hold {
+				panic("C10 harness: a waiter asked to stop at verifhook.Yield(\"dpq.unlocked\") reached its select: " +
+					"patches/C10/hook-dpq-yield.patch is not applied to the tree under test (" + os.Getenv("VERIF_REPO") + ")")
+			}
 			if armed {
 				w.parkedEv = true
 				x.emit(Act{K: "Park", ID: w.id, Now: now})
